@@ -6,70 +6,8 @@
    precondition) holds.  Every theorem is proved by the one tactic [gen_arena_tac]; the script does not
    follow the shape of the generated terms. *)
 From Lasso Require Import Base Arena ArenaProofs.
-From LassoGen Require Import GenPrelude GenIR ArenaGen.
+From LassoGen Require Import GenPrelude GenIR GenTactics ArenaGen.
 Open Scope N_scope.
-
-(* ---------------- the generic tactic ---------------- *)
-
-Ltac unfold_all :=
-  unfold run_fun, run_bfun, run_wc, run_new, as_str_result, as_unit_result, as_unit, as_num,
-         as_bnum, as_bbool, as_bunit, as_bref in *;
-  repeat autounfold with arenagen in *;
-  unfold vec_store, vec_store_legacy, vec_store_gen, grow, vec_place, arena_new, arena_clear, block_clear in *.
-
-Ltac unfold_props :=
-  unfold ArenaInv, arena_typed, push_pre, alloc_pre, wc_pre, free_pre, block_ok, alloc_size,
-         usize_max, isize_max in *.
-
-Ltac split_hyps :=
-  repeat match goal with
-  | H : _ /\ _ |- _ => destruct H
-  end.
-
-(* what the invariant says about the last bucket, once the execution has looked at it *)
-Ltac use_last :=
-  repeat match goal with
-  | H : last_opt (blocks ?a) = Some ?b |- _ =>
-      apply last_opt_In in H;
-      repeat match goal with
-      | F : Forall _ (blocks a) |- _ =>
-          let F' := fresh in
-          pose proof (proj1 (Forall_forall _ _) F _ H) as F'; cbv beta in F'; clear F
-      end
-  end.
-
-(* one case split on whatever blocks the symbolic execution *)
-Ltac sym_step :=
-  match goal with
-  | |- context [last_opt ?l] => destruct (last_opt l) eqn:?
-  | |- context [N.ltb ?a ?b] => destruct (N.ltb_spec a b); try (exfalso; lia)
-  | |- context [N.leb ?a ?b] => destruct (N.leb_spec a b); try (exfalso; lia)
-  | |- context [N.eqb ?a ?b] => destruct (N.eqb_spec a b); try (exfalso; lia)
-  end.
-
-Ltac sym_exec :=
-  repeat (cbn; unfold alloc_spec, push_slice, free_spec, is_full_spec; sym_step);
-  cbn; unfold alloc_spec, push_slice, free_spec, is_full_spec, with_blocks, fresh_block; cbn.
-
-Ltac finish :=
-  unfold_props; split_hyps; use_last; split_hyps;
-  cbn [bid bcap bused bdata blocks bucket_cap usage limit next_bid];
-  rewrite ?repeat_length, ?N2Nat.id;
-  first [ eq_close | solve [prop_close] | idtac ].
-
-(* the string argument: empty, or non-empty with only its (positive) length known *)
-Ltac case_string s :=
-  let c := fresh "c" in let s0 := fresh "s0" in
-  destruct s as [|c s0];
-  [ change (slen []) with 0 in *
-  | let Hs := fresh "Hs" in
-    assert (Hs : 0 < slen (c :: s0)) by (apply slen_pos; discriminate);
-    set (s := c :: s0) in * ].
-
-Ltac gen_arena_tac :=
-  intros; unfold_all;
-  try match goal with s : str |- _ => case_string s end;
-  sym_exec; finish.
 
 (* ---------------- Bucket (src/arenas/bucket.rs) ---------------- *)
 
@@ -127,11 +65,6 @@ Theorem gen_allocate_memory_safe : forall a s n, alloc_pre a n ->
   snd (run_fun gen_allocate_memory a s [n]).
 Proof. gen_arena_tac. Qed.
 
-(* the domain of store_str's obligations: representable sizes, stated as weakly as the proof allows *)
-Definition store_dom (a : arena) (s : str) : Prop :=
-  usage a + 2 * bucket_cap a <= usize_max /\ usage a + slen s <= usize_max /\
-  2 * bucket_cap a <= isize_max /\ slen s <= isize_max.
-
 (* store_str computes vec_store: no hypothesis at all is needed for the VALUE *)
 Theorem gen_store_str_eq : forall a s,
   as_str_result (fst (run_fun gen_store_str a s [])) = Some (Arena.vec_store a s).
@@ -144,10 +77,28 @@ Theorem gen_store_str_safe : forall a s, ArenaInv a -> arena_typed a -> store_do
 Proof. unfold store_dom. gen_arena_tac. Qed.
 
 (* the same domain from the customary bounds "everything is below 2^63" *)
-Corollary gen_store_str_safe_63 : forall a s, ArenaInv a -> arena_typed a ->
+Theorem gen_store_str_safe_63 : forall a s, ArenaInv a -> arena_typed a ->
   usage a <= isize_max -> 2 * bucket_cap a <= isize_max -> slen s <= isize_max ->
   snd (run_fun gen_store_str a s []).
 Proof.
   intros a s Hi Ht H1 H2 H3. apply gen_store_str_safe; auto.
   unfold store_dom, isize_max, usize_max in *. lia.
 Qed.
+
+Print Assumptions gen_with_capacity_eq.
+Print Assumptions gen_with_capacity_safe.
+Print Assumptions gen_free_elements_eq.
+Print Assumptions gen_free_elements_safe.
+Print Assumptions gen_is_full_eq.
+Print Assumptions gen_bucket_clear_eq.
+Print Assumptions gen_push_slice_eq.
+Print Assumptions gen_push_slice_safe.
+Print Assumptions gen_new_eq.
+Print Assumptions gen_new_safe.
+Print Assumptions gen_memory_usage_eq.
+Print Assumptions gen_clear_eq.
+Print Assumptions gen_allocate_memory_eq.
+Print Assumptions gen_allocate_memory_safe.
+Print Assumptions gen_store_str_eq.
+Print Assumptions gen_store_str_safe.
+Print Assumptions gen_store_str_safe_63.
